@@ -265,3 +265,38 @@ HX void hx_usage_nodesc(uint64_t, uint64_t) {
    else vs_assert(pos_mand == std::string::npos && pos_opt != std::string::npos && ka > pos_opt, "an optional argument is listed under the optional caption");
    vs_assert(count(out, "Check: Value >= 10") == ((fl & 2) ? 1u : 0u), "the check of an argument is shown exactly when it has one");
 }
+
+// layout of the usage when it is printed a second time after the set of visible arguments grew (a hidden argument with a long
+// key becomes visible through --print-hidden): no line is longer than the configured length and all description lines of the
+// second output start in the same column
+HX void hx_usage_layout2(uint64_t base, uint64_t) {
+   std::ostringstream os, es;
+   Handler ah(os, es, Handler::hfHelpShort | Handler::hfUsageCont | Handler::hfArgHidden);
+   unsigned len = vs_u8("linelen"); vs_assume(len < 6);
+   const size_t line_len = (size_t) base + len;
+   ah.setUsageLineLength((int) line_len);
+   int idx = 0; std::string name; bool exp = false;
+   ah.addArgument("i,index", DEST_VAR(idx), "The index of the entry to handle, which is a rather long description that must be wrapped onto the next line of the usage.")->setPrintDefault(false);
+   ah.addArgument("n,name", DEST_VAR(name), "The name of the entry.")->setPrintDefault(false);
+   ah.addArgument("enable-experimental-feature", DEST_VAR(exp), "Enables the experimental feature, which is not yet official and whose description must be wrapped onto the next line as well.")->setIsHidden();
+   { std::ostringstream first; first << ah; }
+   char a0[] = "prog", a1[] = "--print-hidden", a2[] = "-h"; char* argv[] = {a0, a1, a2, nullptr};
+   int rc = 0;
+   try { ah.evalArguments(3, argv); } catch (const std::exception&) { rc = 1; } catch (...) { rc = 2; }
+   vs_assert(rc == 0, "printing the usage does not fail");
+   const std::string out = os.str();
+   vs_assert(count(out, "--enable-experimental-feature") == 1, "the hidden argument is listed once its display was requested");
+   size_t start = 0, desc_col = std::string::npos; bool ok_len = true, ok_col = true;
+   while (start < out.size()) {
+      size_t end = out.find('\n', start); if (end == std::string::npos) end = out.size();
+      const std::string line = out.substr(start, end - start);
+      if (line.size() > line_len) ok_len = false;
+      size_t col = std::string::npos;
+      if (line.compare(0, 4, "    ") == 0) col = line.find_first_not_of(' ');                       // continuation line of a description
+      else if (line.compare(0, 3, "   ") == 0) { size_t k = line.find(' ', 3); if (k != std::string::npos) col = line.find_first_not_of(' ', k); }   // key + description
+      if (col != std::string::npos) { if (desc_col == std::string::npos) desc_col = col; else if (col != desc_col) ok_col = false; }
+      start = end + 1;
+   }
+   vs_assert(ok_len, "no line of the usage is longer than the configured line length");
+   vs_assert(ok_col, "all description lines of the usage start in the same column");
+}
